@@ -1861,11 +1861,16 @@ class Rule(metaclass=LogicalType):
     @classmethod
     def resolve_forward_refs(cls):
         # an override version of LogicalType.resolve_forward_refs
+        resolved = False
+        origin = getattr(cls, "__origin__", None)
+        if isinstance(origin, LogicalType) and origin is not cls:
+            # the origin may itself be a logical type holding references: Rule[AnyOf(ForwardRef('B'), None)]
+            if origin.resolve_forward_refs():
+                resolved = True
         if not cls.__args__:
-            return False
+            return resolved
         args = []
         arg_transformers = []
-        resolved = False
         for arg, trans in zip(cls.__args__, cls.__arg_transformers__):
             if isinstance(arg, LogicalType):
                 # including the Rule class and LogicalType with combinator
